@@ -307,7 +307,10 @@ impl<'r> Gen<'r> {
                     let np = self.rng.range(self.cfg.min_params.clamp(1, 3), 3);
                     for i in 0..np {
                         let pty = self.pick_param_ty();
-                        let pn = if i > 0 && self.rng.chance(1, 12) {
+                        let pn = if self.cfg.shadowing && self.rng.chance(1, 20) && !params.iter().any(|(n, _): &(String, Ty)| n == "concat") {
+                            // a parameter may be named like the built-in, which it then shadows
+                            "concat".to_owned()
+                        } else if i > 0 && self.rng.chance(1, 12) {
                             // a repeated parameter name: the last one is the binder of the name
                             params[self.rng.below(i)].0.clone()
                         } else if shared {
@@ -1118,7 +1121,8 @@ impl<'r> Gen<'r> {
                 }
             }
             Ty::Uri => {
-                if !head_ctor && self.rng.chance(1, 6) {
+                let concat_shadowed = sc.params.iter().any(|(n, _, _)| n == "concat") || sc.recs.iter().any(|(n, _, _)| n == "concat");
+                if !head_ctor && !concat_shadowed && self.rng.chance(1, 6) {
                     let a = self.gen(&Ty::Uri, d1, sc);
                     let b = self.gen(&Ty::Uri, d1, sc);
                     E::App {
@@ -1234,7 +1238,7 @@ impl<'r> Gen<'r> {
                 self.rng.pick(&names).clone()
             }
         } else if self.cfg.shadowing {
-            (*self.rng.pick(&["x", "node", "a", "r", "v", "item"])).to_owned()
+            (*self.rng.pick(&["x", "node", "a", "r", "v", "item", "concat"])).to_owned()
         } else {
             format!("r{id}")
         };
